@@ -303,7 +303,21 @@ def _r2(ctx):
             want.append((p, 'call_function', [1]))
         elif len(syms) == 4 and syms[0] == 'FUNCTION' and syms[1] == 'LPAREN' and syms[3] == 'RPAREN':
             want.append((p, 'call_function', [1, 3]))
-    res.floor('reference productions', len(want), 15)
+    # exhaustiveness: every kind of cell label may be either corner of a range
+    kinds = sorted(set(p.syms[0] for p in g.productions if p.name == 'cell' and len(p.syms) == 1))
+    have = set((p.syms[0], p.syms[2]) for p in g.productions if p.name == 'cell' and len(p.syms) == 3 and p.syms[1] == 'COLON')
+    res.floor('kinds of cell label', len(kinds), 3)
+    missing = [(a, b) for a in kinds for b in kinds if (a, b) not in have]
+    res.ob('R2', 'grammar:cell', 'every pair of label kinds forms a range (%d kinds, %d pairs)' % (len(kinds), len(kinds) ** 2), not missing,
+           '; '.join('%s:%s' % ab for ab in missing))
+    if missing:
+        any_cell = [p for p in g.productions if p.name == 'cell'][0]
+        res.violation('R2', 'grammar:cell:range-pairs', g.gm.where(any_cell.func),
+                      'no production for a range whose corners are written %s: such a reference is a syntax error and raises no range event, '
+                      'although a range is one reference however its corners are written' % ', '.join('%s:%s' % ab for ab in missing),
+                      case=missing, func=any_cell.funcname)
+    else:
+        res.floor('reference productions', len(want), 15)
     for p, cbname, roles_ in want:
         m, f = g.action_funcs[p.funcname]
         fv = Func(m, f)
